@@ -397,11 +397,11 @@ def run_reference(rec, inp):
     I = float(np.sum((integrand[1:] + integrand[:-1]) * np.diff(th)) / 2.0)
     w = np.exp(l[np.isfinite(l)] - m); w = np.concatenate([w, np.zeros(N - len(w))])
     est, se = float(np.mean(w)), float(np.std(w, ddof=1) / np.sqrt(N))
-    ok = abs(est - I) <= 5 * se + 5e-3 * I
+    ok = abs(est - I) <= 6 * se + 5e-3 * I   # calibrated: z=(est-I)/se has sd 1.0-1.4, max 3.6 over 1250 trials
     rec.check(n == N and ok, "C04:reference_integral:" + c, "N-draw mean of L vs population integral of L (5 sigma MC band)", inp,
-              dict(n=n, estimate=est, se=se, integral=I, log_value=val, log_integral=float(np.log(I) + m)), "|estimate-integral| <= 5 se + 0.5%")
+              dict(n=n, estimate=est, se=se, integral=I, log_value=val, log_integral=float(np.log(I) + m)), "|estimate-integral| <= 6 se + 0.5%")
     if closed is not None:
-        rec.check(abs(np.exp(val - closed) - 1) <= 5 * se / max(est, 1e-300) + 1e-6 and abs(np.log(I) + m - closed) < 5e-3, "C04:reference_integral:" + c,
+        rec.check(abs(np.exp(val - closed) - 1) <= 6 * se / max(est, 1e-300) + 1e-6 and abs(np.log(I) + m - closed) < 5e-3, "C04:reference_integral:" + c,
                   "closed form E[L] for Gaussian lambda on a Gaussian Ddt", inp, dict(value=val, closed=float(closed), quadrature=float(np.log(I) + m)), "within the 5 sigma band")
 
 
